@@ -614,6 +614,50 @@ example : v6chars "fe80::a".toList ∧ (∀ a p, rsplitColon "fe80::a".toList = 
   rw [this] at h
   injection h with h; injection h with _ h2; subst h2; decide
 
+/-! ### A list of bind strings: every entry produces its socket by itself
+
+`bind`, `insecure_bind` and `quic_bind` are lists (several `-b` flags, a list in a configuration file); `_create_sockets` parses
+them in one loop.  What an entry is bound to must not depend on the entries in front of it. -/
+
+/-- **no local of `_create_sockets` outlives an iteration of `for bind in binds`** (re-decided against the current source:
+    `createSocketsCarried` is the result of a definite-assignment analysis of the loop body - a default that is set once in
+    front of the loop and only overwritten when a bind names a port shows up here as `"port"`) -/
+theorem create_sockets_loop_spec : ConfigSites.createSocketsCarried = [] := by decide
+
+private theorem bindStep_fst (last : Nat) (s : List Char) : (bindStep last s).1 = parseBind s := by
+  have h : portCarried = false := by simp [portCarried, create_sockets_loop_spec]
+  unfold bindStep
+  cases parseBind s <;> simp [h]
+
+private theorem createSocketsFrom_eq (binds : List (List Char)) : ∀ last, createSocketsFrom last binds = binds.map parseBind := by
+  induction binds with
+  | nil => intro _; rfl
+  | cons s rest ih => intro last; simp [createSocketsFrom, bindStep_fst, ih]
+
+/-- **each bind string of a list is parsed as if it were given alone**, whatever stands in front of it -/
+theorem create_sockets_pointwise (binds : List (List Char)) : createSockets binds = binds.map parseBind :=
+  createSocketsFrom_eq binds 8000
+
+theorem create_sockets_entry (binds : List (List Char)) (i : Nat) : (createSockets binds)[i]? = (binds[i]?).map parseBind := by
+  simp [create_sockets_pointwise]
+
+theorem create_sockets_append (a b : List (List Char)) : createSockets (a ++ b) = createSockets a ++ createSockets b := by
+  simp [create_sockets_pointwise]
+
+/-- a bare host is bound to port 8000 wherever it stands in the list (in particular behind a `host:port` entry) -/
+theorem bind_bare_host_in_list (pre post : List (List Char)) (h : List Char) (hh : plainHost h) :
+    (createSockets (pre ++ h :: post))[pre.length]? = some (.inet false h 8000) := by
+  simp [create_sockets_pointwise, bind_bare_host h hh]
+
+/-- ... and so is a bracketed IPv6 literal without a port -/
+theorem bind_bare_v6_in_list (pre post : List (List Char)) (h : List Char) (hh : v6chars h) :
+    (createSockets (pre ++ ('[' :: h ++ [']']) :: post))[pre.length]? = some (.inet true h 8000) := by
+  simp [create_sockets_pointwise, bind_bare_v6 h hh]
+
+example : createSockets ["127.0.0.1:5000".toList, "127.0.0.2".toList, "unix:/x".toList, "[::1]".toList, "[::]:443".toList, "h".toList] =
+    [.inet false "127.0.0.1".toList 5000, .inet false "127.0.0.2".toList 8000, .unix "/x".toList, .inet true "::1".toList 8000,
+     .inet true "::".toList 443, .inet false "h".toList 8000] := by decide
+
 /-! ### RFC 7231 date and the server's own response headers -/
 
 theorem date_fields_in_range (t : Nat) (ht : t ≤ 253402300799) :
